@@ -11,7 +11,21 @@ from . import guards, shapes
 from .common import *
 
 
-def decode_slice(ctx, extra_roots=()):
+ENC_MODS = ('adsg_core.optimization.assign_enc.encoding', 'adsg_core.optimization.assign_enc.lazy_encoding',
+            'adsg_core.optimization.assign_enc.lazy.imputation.first',
+            'adsg_core.optimization.assign_enc.lazy.imputation.delta',
+            'adsg_core.optimization.assign_enc.lazy.imputation.closest',
+            'adsg_core.optimization.assign_enc.lazy.imputation.constraint_violation',
+            'adsg_core.optimization.assign_enc.eager.imputation.first',
+            'adsg_core.optimization.assign_enc.eager.imputation.delta',
+            'adsg_core.optimization.assign_enc.eager.imputation.closest',
+            'adsg_core.optimization.assign_enc.eager.imputation.auto_mod',
+            'adsg_core.optimization.assign_enc.eager.imputation.constraint_violation',
+            'adsg_core.optimization.assign_enc.patterns.encoder',
+            'adsg_core.optimization.assign_enc.patterns.patterns')
+
+
+def decode_slice(ctx, extra_roots=(), extra_mods=()):
     """Functions executed by a decode: reachable from GraphProcessor.get_graph, restricted to the modules
     that implement decoding (selection of a connection encoder is C12's slice)."""
     roots = [ctx.fn(f'{GP}.get_graph')] + [ctx.fn(k) for k in extra_roots]
@@ -21,7 +35,7 @@ def decode_slice(ctx, extra_roots=()):
             'adsg_core.optimization.assign_enc.assignment_manager', 'adsg_core.graph.adsg',
             'adsg_core.graph.adsg_basic', 'adsg_core.graph.choices', 'adsg_core.graph.traversal',
             'adsg_core.graph.incompatibility', 'adsg_core.graph.adsg_nodes', 'adsg_core.graph.influence_matrix',
-            'adsg_core.graph.choice_constraints', 'adsg_core.func_cache')
+            'adsg_core.graph.choice_constraints', 'adsg_core.func_cache') + tuple(extra_mods)
     fns = [f for f in reach if f.module.name in mods]
     if len(fns) < 40:
         raise AnalysisError(f'decode slice has only {len(fns)} functions (hand-confirmed: more than 100): call '
